@@ -29,7 +29,7 @@ PROP = 'C07'
 MODEL_MODULES = ['TenpyModel.Util.J', 'TenpyModel.MPS.Eval', 'TenpyModel.C07.ExtCover', 'TenpyModel.C07.ExtCharge',
                  'TenpyModel.C07.ExtGlue']
 PROPS_MODULES = ['TenpyModel.C07.Props', 'TenpyModel.C07.Props2', 'TenpyModel.C07.PropsExtCover',
-                 'TenpyModel.C07.PropsExtCharge', 'TenpyModel.C07.PropsExtGlue']
+                 'TenpyModel.C07.PropsExtCharge', 'TenpyModel.C07.PropsExtGlue', 'TenpyModel.C07.PropsExtPerm']
 LEVEL = 'proof'
 BUDGET = {'quick': 200, 'thorough': 1500}
 RULE = ('states by every constructor (from_product_state with labels/ints/local vectors and permute on/off, from_full on '
@@ -42,7 +42,10 @@ RULE = ('states by every constructor (from_product_state with labels/ints/local 
         'segments. A case is non-trivial when some bond dimension is > 1; distinct by content hash. Extension part '
         '(harness/c07_ext.py): coverings by 1-4 interleaved local states incl. malformed index maps, charged MPS of '
         'every kind with gauge_total_charge requests (total / per-site / outer legs / malformed), form arguments '
-        '(names, None, tuples, lists of wrong length), get_theta windows, entropy cuts.')
+        '(names, None, tuples, lists of wrong length), get_theta windows, entropy cuts; p_state entries (int / 1D array / '
+        'label, permute on/off, 2D lattice arrays) on every predefined site class x conserve option (half of the draws '
+        'with a non-involutive basis permutation) through from_product_state, from_lat_product_state, from_singlets, '
+        'from_product_mps_covering, from_random_unitary_evolution.')
 TRUSTED = ['Lean 4.33 kernel; axioms of every C07_* theorem ⊆ {propext, Classical.choice, Quot.sound}',
            'hand-written model lean/TenpyModel/MPS/{Scalar,Chain,Basic}.lean tied to tenpy/networks/mps.py by this run; '
            'form table regenerated from MPS._valid_forms by tools/gen_C07.py',
